@@ -1,7 +1,7 @@
 (* C05 — Validator updates keep Tendermint's set equal to the staked set. Statements only. *)
 From Coq Require Import List ZArith NArith Bool.
 From PM Require Import Base.Bytes Store.KV Store.MergeProofs Num.IntModel Num.DecModel Num.DecProofs
-  App.Model App.BankProofs App.TxProofs App.KeyProofs App.IndexProofs App.PoolProofs App.UpdateProofs App.TombProofs App.Examples App.Invariants.
+  App.Model App.BankProofs App.TxProofs App.KeyProofs App.IndexProofs App.PoolProofs App.UpdateProofs App.TmProofs App.TombProofs App.Examples App.Invariants.
 Import ListNotations.
 Local Open Scope Z_scope.
 
@@ -38,6 +38,18 @@ Theorem C05_set_is_the_top_of_the_index s s' ups : idx_sound s -> dsorted true (
   let walked := map snd (firstn (Z.to_nat (p_max_validators (pp s))) (rev (powidx s))) in
   forall a, aget (prevpow s') a = if mem a walked then option_map (fun v => power_of (v_tokens v)) (get_val s a) else None.
 Proof. exact (tm_set_is_top_of_index s s' ups). Qed.
+(* the whole history, as Tendermint sees it: it starts with the set the module has on record and applies the batch of every
+   EndBlock; then every batch of every EndBlock is applicable to the set it has at that moment, and after every EndBlock
+   its set equals the module's record - which by C05_set_is_the_top_of_the_index is the top MaxValidators of the index.
+   Nothing but EndBlock's update touches that record (App/TmProofs.v, App/Frames.v) *)
+Theorem C05_whole_history_as_seen_by_tendermint MA ops s s' : tinv MA s -> Forall (op_ok MA) ops -> run ops s = Some s' ->
+  tm_run ops s (prevpow s) s' (prevpow s') /\ tinv MA s'.
+Proof. exact (history_as_seen_by_tendermint MA ops s s'). Qed.
+Theorem C05_tm_run_reading_end s tm r s' tm' : tm_run (OEnd :: r) s tm s' tm' ->
+  exists s1 ups, end_block s = Some (s1, ups) /\ applicable tm ups /\ tm_run r s1 (apply_updates ups tm) s' tm'.
+Proof. intros H. inversion H; subst; [eauto|]. match goal with N : OEnd <> OEnd |- _ => contradiction end. Qed.
+Example C05_ex_tinv : exists s ups, ex_genesis = Some (s, ups) /\ pool_ok ex_ma s /\ idx_sound s.
+Proof. destruct ex_genesis_all_ok as (s & ups & E & _ & I & P & _). exists s, ups. auto. Qed.
 Theorem C05_genesis_index_sound s0 gvals dao s ups :
   idx_sound s0 -> NoDup (map g_addr gvals) -> (forall g, In g gvals -> aget (vals s0) (g_addr g) = None) ->
   init_chain s0 gvals dao = Some (s, ups) -> idx_sound s.
@@ -49,3 +61,4 @@ Print Assumptions C05_rank_key_injective.
 Print Assumptions C05_index_entries_are_staked_unjailed_all_histories.
 Print Assumptions C05_updates_always_applicable.
 Print Assumptions C05_set_is_the_top_of_the_index.
+Print Assumptions C05_whole_history_as_seen_by_tendermint.
